@@ -22,3 +22,14 @@ PROPS = {
     },
 }
 NOT_APPLICABLE = {}
+
+PROPS["C04"] = {
+    "level": "exploration",
+    "rule": "rapidcheck-generated (catalogue entry x channels up to the container maximum x sample rate incl. field-width edges x N biased to block edges x partition over calls and sample types x SF_INFO.frames at open in {0,N,N+1000,-1,INT64_MAX} x route); "
+            "non-trivial = N >= 1; distinct = hash of (format, channels, rate class, N, split mode, frames field, route)",
+    "assumptions": BASE_ASSUME + ["block length B of WAV/W64 ADPCM is read from the fmt chunk of the produced file by an independent walker; other B values are the table of DESIGN Appendix A.1",
+                                  "sample-rate equality is asserted only where the container's rate field can hold the value exactly (DESIGN Appendix A.2)"],
+    "stages": [
+        {"bin": "c04", "quick": {"cases": 2500, "workers": 16, "budget": 150}, "thorough": {"cases": 60000, "workers": 16, "budget": 1200}},
+    ],
+}
